@@ -210,6 +210,13 @@ def gen_history(rng, spec, roots, refs, opts):
                         break
                     steps.append({'op': 'value', 'chain': c2, 'task': rng.choice([t] + sorted(refs[live[c2]].descendants(t))), 'ri': live[c2]})
                     steps.append({'op': 'disarm', 'chain': c2})
+                elif opts.get('p_reset') and rng.random() < opts['p_reset']:
+                    # memory released between requests (all tasks, or the ones forced last), then one of them is asked again
+                    last_force = next((s_ for s_ in reversed(steps) if s_['op'] == 'force' and s_['chain'] == c2 and not s_.get('expect_fault')), None)
+                    tg = list(names) if rng.random() < 0.5 or not last_force else sorted(set(last_force['tasks']) | set().union(*[refs[live[c2]].descendants(t_) for t_ in last_force['tasks']]))
+                    steps.append({'op': 'reset', 'chain': c2, 'tasks': tg, 'ri': live[c2]})
+                    steps.append({'op': 'snapshot', 'chain': c2, 'light': True, 'ri': live[c2]})
+                    steps.append({'op': 'value', 'chain': c2, 'task': rng.choice(tg), 'ri': live[c2]})
                 else:
                     steps.append({'op': 'value', 'chain': c2, 'task': rng.choice(names), 'ri': live[c2], 'twice': rng.random() < 0.1})
                 if opts.get('inspect_after_run') and steps[-1]['op'] in ('value', 'force', 'disarm') and rng.random() < opts['inspect_after_run']:
@@ -427,6 +434,19 @@ def evaluate_history(lab, spec, roots, refs, sessions, counters, want):
                         exp_has = model.persisting(ob) and model.loc(ob) in model.store
                         if hd != exp_has:
                             add('C04', 'has_data', f'{here}: has_data of {n} is {hd}, the history implies {exp_has}')
+                continue
+            if op == 'reset':
+                # reset_data(): the task object lets go of its in-memory data; stored results and the forced mark are not touched
+                counters['reset_data_steps'] += 1
+                if obs_runs:
+                    add('C04', 'runs_on_inspect', f'{here}: reset_data executed run of {[x["task"] for x in obs_runs]}')
+                if not o['ok']:
+                    add('C04', 'inspect_failed', f'{here}: reset_data raised {o.get("exc")}: {o.get("msg")}')
+                    return disc, None
+                for n in step['tasks']:
+                    if ch['objs'][n].forced:
+                        counters['reset_data_on_forced_task'] += 1
+                    ch['objs'][n].in_memory = False
                 continue
             if op == 'arm_fault':
                 armed = (step['task'], step['kind'])
